@@ -142,6 +142,13 @@ def shiftBy (a : Val) (hours : Int) : Except Err Val :=
   | .h x => .ok (.h ⟨Series.shift hours x.vals, x.unit⟩)
   | _ => .error .type
 
+/-- `return_shifted_hourly_quantities(d)` from the duration itself: the shift is `math.floor` of the
+duration expressed in hours (also for negative durations: an instant `t + d` lies in the hour
+`t + floor(d)`), whatever unit the duration is written in -/
+def shiftByDuration (a : Val) (d : Qty) : Except Err Val := do
+  let d' ← d.to ⟨3600, { time := 1 }⟩
+  a.shiftBy d'.mag.floor
+
 /-- `round(x, n)` (`__round__`) -/
 def round (n : Nat) : Val → Val
   | .empty => .empty
